@@ -15,6 +15,7 @@
    Only statements here. *)
 From Coq Require Import ZArith QArith List Bool Permutation Lia.
 From ACN Require Import Base.Num Model.EVSE Model.SimPerm Proofs.SimPerm Proofs.SimShift.
+From ACN Require Model.Preproc Model.Sorted Proofs.SortedPerm.
 Import ListNotations.
 Open Scope Q_scope.
 Open Scope list_scope.
@@ -102,6 +103,70 @@ Theorem C10_sorted_equivariant_partial : forall key alloc t v v',
   NoDup (map key v) -> Permutation v v' -> sched_sorted key alloc t v = sched_sorted key alloc t v'.
 Proof. exact sorted_equivariant. Qed.
 Print Assumptions C10_sorted_equivariant_partial.
+
+(* ... and the allocation procedure itself (Model/Sorted.v :: sorting_algorithm, the greedy loop with the bisection
+   for continuous EVSEs and the top-down level search for finite-rate EVSEs, against the phasor check feasQ):
+   FULL.  Three incidental orders are permuted at once:
+     - the active sessions are presented in ANY order ss' (a Permutation of the relabelled list);
+     - the stations are listed in another order: `p` is a permutation of 0..N-1, the new position k holds the old
+       station p[k]; `infra_perm p inf inf'` says every per-station vector of InfrastructureInfo (phases as cos/sin,
+       voltages, max/min pilots, allowable pilots, is_continuous) and every column of the constraint matrix is permuted
+       accordingly, and a session at old station i sits at new station `pos p i` (relabel);
+     - the constraint rows (with their limits) are listed in ANY order (the Permutation inside infra_perm).
+   With pairwise distinct priority keys the algorithm returns the same schedule entry-for-entry permuted
+   (perm_vec p out: entry k of the new vector is entry p[k] of the old one), i.e. the same map station -> pilot,
+   and raises the same error if it raises.  Holds for all five sort orders and for continuous as well as
+   finite-rate stations.  (Preprocessing and round robin are not covered: apply_minimum_charging_rate serves equal
+   remaining times in presentation order.) *)
+Section SortedEquivariance.
+  Import ACN.Model.Preproc ACN.Model.Sorted ACN.Proofs.SortedPerm.
+
+  Theorem C10_sorted_equivariant :
+    forall (inf inf' : infra) (p : list nat) period now k (ss ss' : list Preproc.session),
+      is_perm p (n_stations inf) -> infra_shape inf -> infra_perm p inf inf' ->
+      (forall s, In s ss -> (s_station s < n_stations inf)%nat) ->
+      Permutation ss' (map (relabel p) ss) ->
+      (forall a b, In a ss -> In b ss ->
+         sort_key inf period now k a == sort_key inf period now k b -> a = b) ->
+      sorting_algorithm (feasQ inf') inf' period now k ss'
+      = res_map (perm_vec 0 p) (sorting_algorithm (feasQ inf) inf period now k ss).
+  Proof. exact greedy_equivariant. Qed.
+
+  (* the same, read station by station *)
+  Theorem C10_sorted_equivariant_map :
+    forall (inf inf' : infra) (p : list nat) period now k (ss ss' : list Preproc.session) out,
+      is_perm p (n_stations inf) -> infra_shape inf -> infra_perm p inf inf' ->
+      (forall s, In s ss -> (s_station s < n_stations inf)%nat) ->
+      Permutation ss' (map (relabel p) ss) ->
+      (forall a b, In a ss -> In b ss ->
+         sort_key inf period now k a == sort_key inf period now k b -> a = b) ->
+      sorting_algorithm (feasQ inf) inf period now k ss = Ok out ->
+      exists out', sorting_algorithm (feasQ inf') inf' period now k ss' = Ok out'
+        /\ List.length out' = List.length out
+        /\ forall i, (i < n_stations inf)%nat -> nth (pos p i) out' 0 = nth i out 0.
+  Proof. exact greedy_equivariant_map. Qed.
+
+  (* what the permuted objects are *)
+  Theorem C10_perm_vec_spec : forall (p : list nat) (v : list Q) i,
+    In i p -> nth (pos p i) (perm_vec 0 p v) 0 = nth i v 0.
+  Proof. intros. now apply nth_perm_vec_pos. Qed.
+
+  (* non-vacuity: three stations on three phases, two finite-rate and one continuous EVSE, both constraints binding;
+     stations rotated by (2,0,1), constraint rows swapped, sessions presented in reverse order *)
+  Example C10_sorted_equivariant_example :
+    is_perm sp_p (n_stations sp_inf) /\ infra_shape sp_inf /\ infra_perm sp_p sp_inf sp_inf'
+    /\ (forall s, In s sp_ss -> (s_station s < n_stations sp_inf)%nat)
+    /\ (forall a b, In a sp_ss -> In b sp_ss ->
+          sort_key sp_inf 5 5%Z FCFS a == sort_key sp_inf 5 5%Z FCFS b -> a = b)
+    /\ exists out,
+         sorting_algorithm (feasQ sp_inf) sp_inf 5 5%Z FCFS sp_ss = Ok out
+         /\ sorting_algorithm (feasQ sp_inf') sp_inf' 5 5%Z FCFS (rev (map (relabel sp_p) sp_ss)) = Ok (perm_vec 0 sp_p out)
+         /\ nth 0 out 0 = 8 /\ nth 1 out 0 = 0 /\ 22 < nth 2 out 0 /\ nth 2 out 0 < 23.
+  Proof. exact sp_example. Qed.
+End SortedEquivariance.
+Print Assumptions C10_sorted_equivariant.
+Print Assumptions C10_sorted_equivariant_map.
+Print Assumptions C10_perm_vec_spec.
 
 (* the two scheduler families of the model are equivariant *)
 Theorem C10_uncontrolled_equivariant : equivariant sched_uncontrolled.
